@@ -593,6 +593,13 @@ impl<F: Read + Write + Seek> Package<F> {
                 if !Column::is_valid_name(name) {
                     invalid_input!("{:?} is not a valid column name", name);
                 }
+                if !column.is_storable() {
+                    invalid_input!(
+                        "Column {:?} has a maximum string length that is too \
+                         large for the file format (at most 255)",
+                        name
+                    );
+                }
                 if column_names.contains(name) {
                     invalid_input!(
                         "Cannot create a table with multiple columns with the \
